@@ -491,6 +491,7 @@ type caseOut struct {
 	selfStop   bool
 	neverHalts bool
 	conc       string // Coq term of the halted aggregator's state for Check/ConcCheck.v ("" = not applicable)
+	concFull   string // Coq term of the halted full node's state for Check/ConcFullCheck.v
 }
 
 func (o *caseOut) fail(sig, what string) {
@@ -645,6 +646,9 @@ func runCase(t *testing.T, c *Case, rootDir string) (out *caseOut) {
 		n.invariants(out)
 		if c.Mode == "agg" && c.InitialHeight == 1 {
 			out.conc = n.concTerm()
+		}
+		if c.Mode == "full" && c.InitialHeight == 1 {
+			out.concFull = n.concFullTerm()
 		}
 	})
 	return out
@@ -1022,7 +1026,7 @@ func TestVerif(t *testing.T) {
 			Replay: map[string]string{"what": err.Error()}})
 	}
 	dt := &descTable{ids: map[string]int{}}
-	var cases, ccases []string
+	var cases, ccases, fcases []string
 	distinct := map[string]bool{}
 	scen := map[string]interface{}{}
 	sigSeen := map[string]int{}
@@ -1126,6 +1130,9 @@ func TestVerif(t *testing.T) {
 			res.Violations = append(res.Violations, vgen.Violation{Signature: sig, What: o.what[vi], Case: ji, Replay: rp})
 		}
 		cases = append(cases, fmt.Sprintf("{| sc_id := %s; sc_loops := %s |}", vgen.N(uint64(ji)), vgen.List(loops)))
+		if o.concFull != "" {
+			fcases = append(fcases, fmt.Sprintf("{| fc_id := %s; %s |}", vgen.N(uint64(ji)), o.concFull))
+		}
 		if o.conc != "" {
 			ccases = append(ccases, fmt.Sprintf("{| cc_id := %s; %s |}", vgen.N(uint64(ji)), o.conc))
 		}
@@ -1166,6 +1173,13 @@ func TestVerif(t *testing.T) {
 	res.CaseFiles = append(res.CaseFiles, cpath)
 	res.Cases += len(ccases)
 	res.Distribution["aggregator-states-checked-against-Conc-invariant"] = len(ccases)
+	fpath := filepath.Join(e.Out, "cases_C13_concfull.v")
+	if err := vgen.WriteCases(fpath, "From Coq Require Import NArith List Bool.\nFrom Verif Require Import Model.Conc Model.ConcFull Check.ConcFullCheck.\nOpen Scope N_scope.", nil, "fcase", fcases, "fmismatches"); err != nil {
+		t.Fatal(err)
+	}
+	res.CaseFiles = append(res.CaseFiles, fpath)
+	res.Cases += len(fcases)
+	res.Distribution["full-node-states-checked-against-ConcFull-invariant"] = len(fcases)
 	if err := res.Write(e.Out); err != nil {
 		t.Fatal(err)
 	}
@@ -1292,4 +1306,48 @@ func (n *node) concTerm() string {
 	return fmt.Sprintf("cc_blocks := %s; cc_ht := %s; cc_sth := %s; cc_wh := %s; cc_pwh := %s; cc_wd := %s; cc_pwd := %s; cc_dah := %s; cc_dad := %s; cc_di := %s; cc_pdi := %s; cc_fin := %s",
 		vgen.List(blocks), vgen.N(height), vgen.N(sth), vgen.N(n.m.VerifLastSubmittedHeaderHeight()), vgen.N(pwh), vgen.N(n.m.VerifLastSubmittedDataHeight()), vgen.N(pwd),
 		vgen.List(dah), vgen.List(dad), vgen.N(n.m.GetDAIncludedHeight()), vgen.N(pdi), vgen.N(fin))
+}
+
+// concFullTerm: the halted full node's state and the proposer's chain in the vocabulary of Model/ConcFull.v
+// (header id = index of the header hash, data id = index of the data commitment, 0 = no transactions)
+func (n *node) concFullTerm() string {
+	ctx := context.Background()
+	ids := map[string]uint64{}
+	id := func(h []byte) uint64 {
+		if v, ok := ids[string(h)]; ok {
+			return v
+		}
+		ids[string(h)] = uint64(len(ids) + 1)
+		return ids[string(h)]
+	}
+	pair := func(h uint64, hd *types.SignedHeader, d *types.Data) string {
+		did := uint64(0)
+		if len(d.Txs) > 0 {
+			did = id(append([]byte("d:"), d.DACommitment()...))
+		}
+		return fmt.Sprintf("(%s, (%s, %s))", vgen.N(h), vgen.N(id(append([]byte("h:"), hd.Hash()...))), vgen.N(did))
+	}
+	var chainT, blocks []string
+	for i := range n.chain.headers {
+		chainT = append(chainT, pair(uint64(i+1), n.chain.headers[i], n.chain.datas[i]))
+	}
+	height, _ := n.st.Height(ctx)
+	for h := uint64(1); h <= height; h++ {
+		if hd, d, err := n.st.GetBlockData(ctx, h); err == nil {
+			blocks = append(blocks, pair(h, hd, d))
+		}
+	}
+	sth := uint64(0)
+	if s, err := n.st.GetState(ctx); err == nil {
+		sth = s.LastBlockHeight
+	}
+	pdi, _ := n.metaU64(store.DAIncludedHeightKey)
+	fin := uint64(0)
+	n.exec.mu.Lock()
+	if l := len(n.exec.finals); l > 0 {
+		fin = n.exec.finals[l-1]
+	}
+	n.exec.mu.Unlock()
+	return fmt.Sprintf("fc_chain := %s; fc_blocks := %s; fc_ht := %s; fc_sth := %s; fc_di := %s; fc_pdi := %s; fc_fin := %s",
+		vgen.List(chainT), vgen.List(blocks), vgen.N(height), vgen.N(sth), vgen.N(n.m.GetDAIncludedHeight()), vgen.N(pdi), vgen.N(fin))
 }
